@@ -56,8 +56,8 @@ func (fs *FS) addMount(p string, mountFS hackpadfs.FS) error {
 	fs.mountMu.Lock()
 	defer fs.mountMu.Unlock()
 
-	dir, base := path.Split(p)
-	parentFS, subPath := fs.Mount(dir) // get this mount point's parent mount, verify dir exists
+	dir, base := path.Dir(p), path.Base(p) // path.Split would leave a trailing slash on dir, which is not a valid path
+	parentFS, subPath := fs.Mount(dir)     // get this mount point's parent mount, verify dir exists
 	f, err := parentFS.Open(path.Join(subPath, base))
 	if err != nil {
 		return err
